@@ -208,8 +208,10 @@ class Agreement(Observer):
                     wrong = sorted((must - idents) | (idents - must - may))
                     causes = {self.classify(o, ident, ns) for ident in wrong}
                     sig = 'wrong-location'
-                    if len(causes) == 1 and None not in causes:
-                        sig = 'stale:' + next(iter(causes))
+                    if causes and None not in causes:
+                        # every wrong entry is explained by a classified mechanism: reported under the first one (several
+                        # entries of one process may be stale for different recorded reasons)
+                        sig = 'stale:' + sorted(causes)[0]
                     self.violate('wrong-location', {'observer': o.nick, 'process': ns, 'shown': sorted(idents),
                                                     'truth_running': sorted(must), 'truth_stopping': sorted(may),
                                                     'shown_state': statename, 'causes': sorted(map(str, causes)),
@@ -237,8 +239,8 @@ class Agreement(Observer):
                                 causes.add(self.classify(o, ident, ns))
                             else:
                                 causes.add('stopping-entry-of-instance-not-running')
-                        if len(causes) == 1 and None not in causes:
-                            sig = 'stale:' + next(iter(causes))
+                        if causes and None not in causes:
+                            sig = 'stale:' + sorted(causes)[0]
                     self.violate('running-ness', detail, sig)
                 elif len(idents) == 1 and not may:
                     ident = next(iter(idents))
